@@ -149,6 +149,77 @@ fn sup_sites(toks: &[Tok]) -> Vec<(usize, bool)> {
     v
 }
 
+/// The rewrites of the statement applied to one input: white space anywhere, aliases on anything
+/// that lexes and, for a well-formed input (`ast` = its tree), one site of every structural rewrite.
+pub fn variants(ev: Ev, s: &str, ast: Option<&Ast>, rng: &mut Rng) -> Vec<(&'static str, String)> {
+    let mut out: Vec<(&'static str, String)> = vec![];
+    let malformed = ast.is_none();
+    // whitespace: insert 1..3 White_Space characters anywhere (also inside names and numbers)
+    {
+        let mut cs: Vec<char> = s.chars().collect();
+        for _ in 0..1 + rng.below(3) {
+            let pos = rng.below(cs.len() + 1);
+            cs.insert(pos, *rng.pick(&WHITE_SPACE));
+        }
+        out.push(("whitespace", cs.into_iter().collect()));
+        // and deletion of what whitespace the input has
+        out.push(("whitespace", strip_ws(s)));
+    }
+    // aliases, on any input that lexes
+    if let Ok(toks) = lex(ev, s) {
+        let sites: Vec<usize> = (0..toks.len()).filter(|k| alias_swap(&toks[*k], &mut Rng::new(1)).is_some()).collect();
+        if !sites.is_empty() {
+            let mut t = toks.clone();
+            if rng.chance(1, 2) {
+                let k = *rng.pick(&sites);
+                t[k] = alias_swap(&toks[k], rng).unwrap();
+            } else {
+                for k in &sites {
+                    t[*k] = alias_swap(&toks[*k], rng).unwrap();
+                }
+            }
+            out.push(("alias", render_tokens(&t)));
+        }
+        if !malformed {
+            // prefix plus
+            let st = operand_starts(&toks);
+            if !st.is_empty() {
+                let k = *rng.pick(&st);
+                let mut t = toks.clone();
+                t.insert(k, Tok::Plus);
+                out.push(("prefix-plus", render_tokens(&t)));
+            }
+            // superscript <-> ^N
+            let ss = sup_sites(&toks);
+            if !ss.is_empty() {
+                let (k, to_sup) = *rng.pick(&ss);
+                let mut t = toks.clone();
+                if to_sup {
+                    if let Tok::Num(d) = &toks[k + 1] {
+                        t.splice(k..k + 2, [Tok::Sup(d.clone())]);
+                    }
+                } else if let Tok::Sup(d) = &toks[k] {
+                    t.splice(k..k + 1, [Tok::Caret, Tok::Num(d.clone())]);
+                }
+                out.push(("superscript", render_tokens(&t)));
+            }
+        }
+    }
+    if let Some(ast) = ast {
+        for kind in ["floor-bracket", "ceil-bracket", "mod-operator", "pow-operator", "redundant-brackets"] {
+            let f = node_rewrite(kind);
+            let cnt = count_matching(ast, f.as_ref());
+            if cnt == 0 {
+                continue;
+            }
+            let k = rng.below(cnt);
+            let t = map_nth(ast, k, &mut 0, f.as_ref());
+            out.push((kind, t.render()));
+        }
+    }
+    out
+}
+
 impl Monitor for C13 {
     fn id(&self) -> &'static str {
         "C13"
@@ -171,73 +242,9 @@ impl Monitor for C13 {
                     s = mutate(&s, &mut rng, ev);
                 }
                 let ph = *rng.pick(&phs);
-                let emit = |ctx: &mut Ctx, kind: &str, t: String| {
+                for (kind, t) in variants(ev, &s, if malformed { None } else { Some(&ast) }, &mut rng) {
                     if t != s {
                         ctx.check(&Case::pair(ev, kind, &s, ph, &t, ph), &|c, st| self.judge(c, st));
-                    }
-                };
-                // whitespace: insert 1..3 White_Space characters anywhere (also inside names and numbers)
-                {
-                    let mut cs: Vec<char> = s.chars().collect();
-                    for _ in 0..1 + rng.below(3) {
-                        let pos = rng.below(cs.len() + 1);
-                        cs.insert(pos, *rng.pick(&WHITE_SPACE));
-                    }
-                    emit(ctx, "whitespace", cs.into_iter().collect());
-                    // and deletion of what whitespace the input has
-                    let stripped = strip_ws(&s);
-                    emit(ctx, "whitespace", stripped);
-                }
-                // aliases, on any input that lexes
-                if let Ok(toks) = lex(ev, &s) {
-                    let sites: Vec<usize> = (0..toks.len()).filter(|k| alias_swap(&toks[*k], &mut Rng::new(1)).is_some()).collect();
-                    if !sites.is_empty() {
-                        let mut t = toks.clone();
-                        if rng.chance(1, 2) {
-                            let k = *rng.pick(&sites);
-                            t[k] = alias_swap(&toks[k], &mut rng).unwrap();
-                        } else {
-                            for k in &sites {
-                                t[*k] = alias_swap(&toks[*k], &mut rng).unwrap();
-                            }
-                        }
-                        emit(ctx, "alias", render_tokens(&t));
-                    }
-                    if !malformed {
-                        // prefix plus
-                        let st = operand_starts(&toks);
-                        if !st.is_empty() {
-                            let k = *rng.pick(&st);
-                            let mut t = toks.clone();
-                            t.insert(k, Tok::Plus);
-                            emit(ctx, "prefix-plus", render_tokens(&t));
-                        }
-                        // superscript <-> ^N
-                        let ss = sup_sites(&toks);
-                        if !ss.is_empty() {
-                            let (k, to_sup) = *rng.pick(&ss);
-                            let mut t = toks.clone();
-                            if to_sup {
-                                if let Tok::Num(d) = &toks[k + 1] {
-                                    t.splice(k..k + 2, [Tok::Sup(d.clone())]);
-                                }
-                            } else if let Tok::Sup(d) = &toks[k] {
-                                t.splice(k..k + 1, [Tok::Caret, Tok::Num(d.clone())]);
-                            }
-                            emit(ctx, "superscript", render_tokens(&t));
-                        }
-                    }
-                }
-                if !malformed {
-                    for kind in ["floor-bracket", "ceil-bracket", "mod-operator", "pow-operator", "redundant-brackets"] {
-                        let f = node_rewrite(kind);
-                        let cnt = count_matching(&ast, f.as_ref());
-                        if cnt == 0 {
-                            continue;
-                        }
-                        let k = rng.below(cnt);
-                        let t = map_nth(&ast, k, &mut 0, f.as_ref());
-                        emit(ctx, kind, t.render());
                     }
                 }
             }
